@@ -83,7 +83,7 @@ impl RpcActions for NoRpc {
 }
 
 /// The options an operator can set at installation, each with its default (index 0) and alternatives.
-const OPTS: [(&str, usize); 21] = [
+const OPTS: [(&str, usize); 22] = [
     ("node_port", 2),
     ("metrics_port", 2),
     ("rpc_port", 2),
@@ -102,6 +102,7 @@ const OPTS: [(&str, usize); 21] = [
     ("home_network", 2),
     ("upnp", 2),
     ("user_mode", 2),
+    ("user", 2),
     ("env", 3),
     ("network_id", 2),
     ("auto_restart", 2),
@@ -122,6 +123,21 @@ fn cli_accepts(p: &PeersArgs) -> bool {
     let mut args: Vec<std::ffi::OsString> = vec!["antctl".into()];
     ant_service_management::node::push_arguments_from_peers_args(p, &mut args);
     PeersOnly::try_parse_from(args).is_ok()
+}
+
+/// The name of the account this process runs as (/proc/self/status + /etc/passwd); None if it cannot be told.
+fn current_user() -> Option<String> {
+    static U: std::sync::OnceLock<Option<String>> = std::sync::OnceLock::new();
+    U.get_or_init(|| {
+        let status = std::fs::read_to_string("/proc/self/status").ok()?;
+        let uid = status.lines().find(|l| l.starts_with("Uid:"))?.split_whitespace().nth(2)?.to_string();
+        let passwd = std::fs::read_to_string("/etc/passwd").ok()?;
+        passwd.lines().find_map(|l| {
+            let f: Vec<&str> = l.split(':').collect();
+            (f.len() > 2 && f[2] == uid).then(|| f[0].to_string())
+        })
+    })
+    .clone()
 }
 
 fn build_options(choice: &[usize], evm: usize, dir: &Path) -> (AddNodeServiceOptions, Vec<(String, String)>) {
@@ -181,7 +197,8 @@ fn build_options(choice: &[usize], evm: usize, dir: &Path) -> (AddNodeServiceOpt
         service_data_dir_path: dir.join("Node-Data"),
         service_log_dir_path: dir.join("Node-Logs"),
         upnp: c("upnp") == 1,
-        user: None,
+        // an account that exists and that this process may hand directories to: the one it runs as
+        user: if c("user") == 1 { current_user() } else { None },
         user_mode: c("user_mode") == 1,
         version: "0.1.0".into(),
     };
@@ -293,6 +310,7 @@ fn one_config(run: &Run, bin: &Path, choice: &[usize], evm: usize, auto_restart_
     let mut reg = NodeRegistry::load(&dir.join("registry.json")).expect("registry");
     let want_auto = opts.auto_restart;
     let want_env = opts.env_variables.clone();
+    let want_user = opts.user.clone();
     let r = rt.block_on(async { add_node(opts, &mut reg, &cap, VerbosityLevel::Minimal).await });
     if let Err(e) = r {
         run.violation("install-succeeds", "add_node", format!("add_node failed for an installable configuration: {e} ({desc})"), desc);
@@ -331,6 +349,9 @@ fn one_config(run: &Run, bin: &Path, choice: &[usize], evm: usize, auto_restart_
     }
     if install_ctx.label.to_string() != upgrade_ctx.label.to_string() {
         run.violation("upgrade-keeps-settings", "label", format!("label {} -> {} ({desc})", install_ctx.label, upgrade_ctx.label), desc.clone());
+    }
+    if install_ctx.username != want_user {
+        run.violation("install-reflects-options", "user", format!("installed definition runs as {:?}, requested {want_user:?} ({desc})", install_ctx.username), desc.clone());
     }
     if install_ctx.autostart != want_auto {
         run.violation("install-reflects-options", "autostart", format!("installed autostart = {}, requested {want_auto} ({desc})", install_ctx.autostart), desc.clone());
@@ -372,13 +393,17 @@ pub fn main(tier: Option<&str>) {
     let run = Run::new("C20", "exploration", tier);
     let d = run.pick(3, 4);
     run.rule(&format!(
-        "21 installable options (ports, ip, first, local, 0-2 peers, 0-2 contact URLs, testnet, ignore-cache, cache dir, log format, log limits, \
-         owner, home-network, upnp, user mode, env vars (none / foreign ones / ones the node reads: ANT_PEERS, ANT_LOG), network id, auto-restart) x EVM network {{arbitrum-one, sepolia, custom}}: every \
+        "22 installable options (ports, ip, first, local, 0-2 peers, 0-2 contact URLs, testnet, ignore-cache, cache dir, log format, log limits, \
+         owner, home-network, upnp, user mode, service account, env vars (none / foreign ones / ones the node reads: ANT_PEERS, ANT_LOG), network id, auto-restart) x EVM network {{arbitrum-one, sepolia, custom}}: every \
          configuration with at most {d} options away from their defaults (each alternative value), plus all-on; configurations that antctl's \
          own PeersArgs parser rejects are skipped. Each: real add_node + real ServiceManager::upgrade against a capturing ServiceControl, both \
          argument lists run, with the definition's environment, through the antnode binary built from this tree. Non-trivial = at least one option non-default."
     ));
     run.assume("the full product (about 1.4e7 installs) is out of budget: the enumeration is bounded by the number of non-default options");
+    match current_user() {
+        Some(u) => run.extra("service_account_alternative", json!(u)),
+        None => run.assume("the account this process runs as could not be determined: the service-account option only takes its default (none)"),
+    }
     run.assume("UpgradeOptions are built as cmd/node.rs builds them; the auto_restart initialiser is read from that source file and interpreted (false | true | node.auto_restart)");
     let bin = std::env::current_exe().ok().and_then(|p| p.parent().map(|d| d.join("antnode")));
     let Some(bin) = bin.filter(|b| b.exists()) else {
